@@ -275,4 +275,9 @@ the source tree on every run. -/
 def modelledWriters (file : String) : Option Nat :=
   if file = "src/transports/ice/conn.rs" then some 6 else some 0
 
+/-- `IceConn::new…` call sites in non-test code outside `conn.rs` that the `pc` stream drives:
+`start_dtls` (primary transport) and `ensure_direct_rtp_media_transport` (extra transport). -/
+def modelledCreators (file : String) : Option Nat :=
+  if file = "src/peer_connection.rs" then some 2 else some 0
+
 end RtcModel.Latch
